@@ -6,7 +6,8 @@ Mirrored code (all byte strings are `List Nat`, one element per octet):
 * `internal/modify/dkim/dkim.go`  `fieldsToSign`, `fieldCount`          → `fieldsToSign`, `fieldCount`
 * go-message `textproto.WriteHeader` / `ReadHeader` (used by the signer, by
   `queue.storeNewMessage` / `queue.openMessage` and by `smtpconn.Data`)  → `writeHeader`, `gmReadHeader`
-* net/textproto `dotWriter` (go-smtp client `Data()`)                    → `dotW`
+* net/textproto `dotWriter` (go-smtp client `Data()`)                    → `dotW` (= `dotOut` ++ `dotClose`)
+* `smtpconn.Data` abandoned after an I/O error (writer not closed)       → `transmitCut`, `acceptedCount`
 * go-smtp server `dataReader`                                            → `dotR`
 * go-msgauth `readHeader`, `headerPicker`, relaxed/simple header and body
   canonicalisers (RFC 6376 §3.4), `parseHeaderParams`, `removeSignature` → `maReadHeader`, `select`,
@@ -195,6 +196,41 @@ def dotW : WState → Bytes → Bytes
       else if c = 10 then pre ++ 13 :: c :: dotW .beginLine r
       else pre ++ c :: dotW .data r
 
+/-- `dotWriter.Write` alone (no `Close`): the octets emitted for the bytes.  This is what is on the
+connection when `smtpconn.Data` gives up part-way (the body reader or the connection failed):
+`Data` returns the error without closing the DATA writer. -/
+def dotOut : WState → Bytes → Bytes
+  | _, [] => []
+  | st, c :: r =>
+    match st with
+    | .cr => if c = 10 then c :: dotOut .beginLine r else c :: dotOut .data r
+    | .data =>
+      if c = 13 then c :: dotOut .cr r
+      else if c = 10 then 13 :: c :: dotOut .beginLine r
+      else c :: dotOut .data r
+    | _ =>
+      let pre : Bytes := if c = 46 then [46] else []
+      if c = 13 then pre ++ c :: dotOut .cr r
+      else if c = 10 then pre ++ 13 :: c :: dotOut .beginLine r
+      else pre ++ c :: dotOut .data r
+
+/-- The state `dotWriter.Write` leaves the writer in. -/
+def dotEnd : WState → Bytes → WState
+  | st, [] => st
+  | st, c :: r =>
+    match st with
+    | .cr => if c = 10 then dotEnd .beginLine r else dotEnd .data r
+    | _ =>
+      if c = 13 then dotEnd .cr r
+      else if c = 10 then dotEnd .beginLine r
+      else dotEnd .data r
+
+/-- What `dotWriter.Close` emits in a given state. -/
+def dotClose : WState → Bytes
+  | .cr => [10, 46, 13, 10]
+  | .beginLine => [46, 13, 10]
+  | _ => [13, 10, 46, 13, 10]
+
 inductive RState | beginLine | dot | dotCR | cr | data
 deriving DecidableEq, Repr
 
@@ -229,6 +265,24 @@ def transmit (h : List Bytes) (body : Bytes) : Bytes := dotW .begin (writeHeader
 
 /-- What the next hop's DATA handler reads. -/
 def receive (wire : Bytes) : Option Bytes := (dotR .beginLine wire).map (·.1)
+
+/-- `smtpconn.Data` when the body reader fails after `k` octets of the body: header and the first
+`k` octets went through the dot writer, the writer is NOT closed (no end-of-data marker); the
+connection is then torn down — after fix 2 `C.Close` sends nothing on a connection whose DATA writer
+is still open (a QUIT would make net/textproto close the dot writer first).  TCP may deliver any
+prefix of this. -/
+def transmitCut (h : List Bytes) (body : Bytes) (k : Nat) : Bytes :=
+  dotOut .begin (writeHeader h ++ body.take k)
+
+/-- How many of the given attempts the next hop accepts: `some k` = the body reader of that attempt
+fails after `k` octets, `none` = an undisturbed attempt. -/
+def acceptedCount (h : List Bytes) (body : Bytes) : List (Option Nat) → Nat
+  | [] => 0
+  | a :: r =>
+    let wire := match a with
+      | some k => transmitCut h body k
+      | none => transmit h body
+    (if (receive wire).isSome then 1 else 0) + acceptedCount h body r
 
 /-- store → (restart) → reload → transmit → receive.  `viaDisk = false` is the first attempt,
 which uses the header object still in memory. -/
